@@ -180,7 +180,7 @@ func buildTest(dir string, race bool) (string, error) {
 // replace directive, so /repo/go.sum is never touched).
 func buildBins(dir string, race bool) error {
 	os.MkdirAll(dir, 0o755)
-	names := []string{"go-critic", "gocritic", "go-critic-analysis", "gocritic-analysis"}
+	names := []string{"go-critic", "gocritic", "go-critic-analysis", "gocritic-analysis", "initorder"}
 	var wg sync.WaitGroup
 	errs := make([]error, len(names)*2)
 	build := func(i int, name string, race bool) {
@@ -192,7 +192,11 @@ func buildBins(dir string, race bool) error {
 			args = []string{"build", "-race", "-o", out + "-race"}
 			e = append(e, "CGO_ENABLED=1")
 		}
-		args = append(args, "github.com/go-critic/go-critic/cmd/"+name)
+		if name == "initorder" {
+			args = append(args, "verif/harness/cmd/initorder") // C17's fresh-process helper
+		} else {
+			args = append(args, "github.com/go-critic/go-critic/cmd/"+name)
+		}
 		cmd := exec.Command("go", args...)
 		cmd.Dir = filepath.Join(root, "harness")
 		cmd.Env = e
